@@ -31,7 +31,7 @@ RULE = (
 )
 ASSUMPTIONS = ["only injective mappings are in the property's domain; others are counted out of domain"]
 
-PA = ["a", "b", "c", "d", "e", "A"]
+PA = ["a", "b", "c", "d", "e", "A", ""]  # ("" is the default namespace: a prefix like any other, and falsy - seed C12-T)
 UA = ["u1/", "u2/", "u3/", "u4/", "u5/", "u6/", "u7/", "U1/", "http://t/n/", "https://t/n/", "http://example.org/b/"]
 
 
